@@ -31,6 +31,17 @@ def do_case(ctx, inp):
              | ({"negative-prio"} if any(v < 0 for p in prios for v in p.values()) else set())
              | ({"prio-on-rule-id"} if any(k in compound_ids(t) for p in prios for k in p) else set()))
     ctx.op({"op": "build", "ast": a}, {"t": t}, label="cc_build")
+    # "non-default branches": in a defaulted choice that lists its default among its alternatives, every other alternative
+    # sits below the generated non-default branch (the node tagged -2) — read off the structure, independently of the ids
+    for n_ in subs(t):
+        if n_["k"] == "node" and n_["cls"] == "ccAny" and n_.get("default"):
+            dids = {d[0] for d in n_["default"]}
+            direct = [k for k in n_["kids"] if not (k["k"] == "node" and k.get("prio") == -2)]
+            if any(k["k"] == "leaf" and k["id"] in dids for k in direct):
+                stray = [k["id"] for k in direct if not (k["k"] == "leaf" and k["id"] in dids)]
+                if stray:
+                    ctx.fail("non-default-alternative-outside-the-non-default-branch",
+                             {"choice": n_["id"], "default": sorted(dids), "alternatives_ranked_like_the_default": stray}); return
     dp = sorted([k, int(v)] for k, v in o.default_prios.items())
     ctx.op({"op": "default_prios", "t": t}, {"prios": dp})
     rec = Recorder()
